@@ -23,7 +23,7 @@ EXPLANATION = (
     "small degree/radian unit inference over the trigonometric calls.")
 NOT_DECIDED = ["numerical agreement of vectors with lengths/angles, near-degenerate cells", "positive volume for valid angle triples (numerical)"]
 ASSUMPTIONS = ["numpy trigonometric functions take radians"]
-FLOORS = {"C17-R1": 20, "C17-R2": 3, "C17-R3": 8, "C17-R4": 20, "C17-R5": 8, "C17-R6": 4, "C17-R7": 19, "C17-R8": 20}
+FLOORS = {"C17-R1": 15, "C17-R2": 3, "C17-R3": 8, "C17-R4": 20, "C17-R5": 8, "C17-R6": 4, "C17-R7": 19, "C17-R8": 20}
 
 UC = "mdtraj/utils/unitcell.py"
 TRAJ = "mdtraj/core/trajectory.py"
@@ -160,41 +160,8 @@ def check(ctx):
                  "yz": {"b_length", "c_length", "alpha", "beta", "gamma"}, "lz": {"b_length", "c_length", "alpha", "beta", "gamma"}})
     _units(ctx, UC, "lengths_and_angles_to_tilt_factors", fn, cfg, defs, deg_params={"alpha", "beta", "gamma"})
 
-    # LAMMPS box reader / writer
-    fn = ctx.py.func(LMP, "LAMMPSTrajectoryFile.write_box")
-    cfg = CFG(fn)
-    defs = Defs(cfg)
-    for name, w in (("xy", {"b", "gamma"}), ("xz", {"c", "beta"}), ("yz", {"b", "c", "alpha", "beta", "gamma"})):
-        d = [x for x in defs.defs if x.var == name and x.kind == "assign"]
-        if not d:
-            ctx.undecided("C17-R1", fn, LMP, "LAMMPSTrajectoryFile.write_box", name, "definition not found")
-            continue
-        got = {x.split(".")[0].split("[")[0] for x in deps(d[0].value, d[0].node, defs)}
-        # a, b, c and alpha, beta, gamma are unpacked from lengths / angles: recover the position of the unpack
-        got2 = set()
-        for g in _unpack_names(fn, d[0].value, defs, d[0].node):
-            got2.add(g)
-        ctx.decide(got2 == w, "C17-R1", d[0].stmt, LMP, "LAMMPSTrajectoryFile.write_box", "%s depends on %s" % (name, sorted(w)), "",
-                   "tilt factor %s is computed from %s, the LAMMPS convention requires %s" % (name, sorted(got2), sorted(w)))
-    un = {src(n.targets[0]): src(n.value) for n in walk_no_nested(fn) if isinstance(n, ast.Assign) and isinstance(n.targets[0], ast.Tuple)}
-    ctx.decide(un.get("(a, b, c)") == "lengths" and un.get("(alpha, beta, gamma)") == "np.radians(angles)", "C17-R3", fn, LMP, "LAMMPSTrajectoryFile.write_box",
-               "a,b,c = lengths; alpha,beta,gamma = radians(angles)", "", "lengths / angles are unpacked in another order: %s" % un)
-    fn = ctx.py.func(LMP, "LAMMPSTrajectoryFile.parse_box")
-    cfg = CFG(fn)
-    defs = Defs(cfg)
-    for name, w in (("beta", {"xz", "c"}), ("gamma", {"xy", "b"})):
-        d = [x for x in defs.defs if x.var == name and x.kind == "assign"]
-        if not d:
-            ctx.undecided("C17-R1", fn, LMP, "LAMMPSTrajectoryFile.parse_box", name, "definition not found")
-            continue
-        got = {n.id for n in ast.walk(d[0].value) if isinstance(n, ast.Name)} - {"np"}
-        ctx.decide(got == w, "C17-R1", d[0].stmt, LMP, "LAMMPSTrajectoryFile.parse_box", "%s = arccos(%s)" % (name, "/".join(sorted(w))), "",
-                   "%s is computed from %s, expected %s" % (name, sorted(got), sorted(w)))
-    d = [x for x in defs.defs if x.var == "angles" and x.kind == "assign" and "degrees" in src(x.value)]
-    ok = bool(d) and "[alpha, beta, gamma]" in src(d[0].value)
-    ctx.decide(ok, "C17-R3", d[0].stmt if d else fn, LMP, "LAMMPSTrajectoryFile.parse_box", "angles = degrees([alpha, beta, gamma])", "", "angle order/units of parse_box changed")
-    d = [x for x in defs.defs if x.var == "lengths" and x.kind == "assign" and "[a, b, c]" in src(x.value)]
-    ctx.decide(bool(d), "C17-R3", d[0].stmt if d else fn, LMP, "LAMMPSTrajectoryFile.parse_box", "lengths = [a, b, c]", "", "length order of parse_box changed")
+    # LAMMPS box reader / writer: which quantity each of the six numbers depends on, the order and units of what parse_box returns - all by value in
+    # C17-R7 (write_box against lengths_and_angles_to_tilt_factors; parse_box(write_box(cell)) recovers a, b, c and the three cosines in that order)
 
     # ------------------------------------------------------------------ R3 getter / setter
     g = ctx.py.func(TRAJ, "Trajectory.unitcell_vectors.getter")
@@ -206,10 +173,7 @@ def check(ctx):
     _r4(ctx)
 
     # ------------------------------------------------------------------ R5 volume
-    v = ctx.py.func(TRAJ, "Trajectory.unitcell_volumes.getter")
-    t = src(v)
-    ctx.decide("np.linalg.det" in t and "self.unitcell_vectors" in t, "C17-R5", v, TRAJ, "Trajectory.unitcell_volumes.getter", "volume = det(unitcell_vectors)", "",
-               "unitcell_volumes is no longer the determinant of the box vectors")
+    _volume_by_evaluation(ctx)
 
 
 def _unpack_names(fn, expr, defs, node, _depth=0):
@@ -944,3 +908,50 @@ def _vectors_setter_by_evaluation(ctx):
         ctx.violated("C17-R4", sfn, TRAJ, q, "unitcell_vectors setter", "a valid assignment is refused: %s" % (e.exc or e))
     except PUnsupported as e:
         ctx.undecided("C17-R4", sfn, TRAJ, q, "unitcell_vectors setter", "not evaluable: %s" % e)
+
+
+def _volume_by_evaluation(ctx):
+    """Trajectory.unitcell_volumes evaluated on a model trajectory with symbolic lengths and angles (2 frames): the volume reported for a frame is the
+    determinant of the cell vectors the same trajectory reports for that frame (the real unitcell_vectors property, evaluated from its source) - as
+    expressions (normal form, else a numeric identity test at three generic points); no cell: None."""
+    from ..tensym import TenSym, Ten, Obj, Raised, numeric_equal
+    from ..pysym import Unsupported as PUnsupported
+    v = ctx.py.func(TRAJ, "Trajectory.unitcell_volumes.getter")
+    vec = ctx.py.func(TRAJ, "Trajectory.unitcell_vectors.getter")
+    q = "Trajectory.unitcell_volumes.getter"
+    ucfuncs = {q_: f_ for q_, f_ in ctx.py.mod(UC).functions.items() if "." not in q_}
+    L, A = Ten.sym("len", (2, 3)), Ten.sym("ang", (2, 3))
+    getters = {"n_frames": lambda s_: 2, "unitcell_lengths": lambda s_: s_._unitcell_lengths, "unitcell_angles": lambda s_: s_._unitcell_angles}
+    try:
+        me = Obj(tag="traj", _unitcell_lengths=L, _unitcell_angles=A, _lenient=True)
+        me._getters = getters
+        me._props = {"unitcell_vectors": vec, "_have_unitcell": ctx.py.func(TRAJ, "Trajectory._have_unitcell.getter")}
+        ev = TenSym({}, funcs=ucfuncs)
+        got = ev.run_fn(v, self=me)
+        V = ev.run_fn(vec, self=me) if False else TenSym({}, funcs=ucfuncs, parent=ev).run_fn(vec, self=me)
+        why = None
+        if not (isinstance(got, Ten) and got.shape == (2,)):
+            why = "the volumes have shape %s for 2 frames" % (getattr(got, "shape", None),)
+        else:
+            for f in range(2):
+                m = [[V.data[f * 9 + i * 3 + j] for j in range(3)] for i in range(3)]
+                det = (m[0][0] * (m[1][1] * m[2][2] - m[1][2] * m[2][1]) - m[0][1] * (m[1][0] * m[2][2] - m[1][2] * m[2][0]) + m[0][2] * (m[1][0] * m[2][1] - m[1][1] * m[2][0]))
+                same = ev.equal(got.data[f], det)
+                if not same:
+                    same = numeric_equal(ev, got.data[f], det, ranges={"ang": (62.0, 108.0), "len": (1.0, 4.0)})
+                    if same is None:
+                        ctx.undecided("C17-R5", v, TRAJ, q, "volume = det(unitcell_vectors)", "the volume of frame %d could not be compared with the determinant" % f)
+                        return
+                if not same:
+                    why = "the volume of frame %d is not the determinant of the cell vectors of that frame" % f
+                    break
+        ctx.decide(why is None, "C17-R5", v, TRAJ, q, "volume = det(unitcell_vectors)", "per frame, for symbolic lengths and angles", "unitcell_volumes is no longer the determinant of the box vectors: %s" % why)
+        me2 = Obj(tag="traj", _unitcell_lengths=None, _unitcell_angles=None, _lenient=True)
+        me2._getters = getters
+        me2._props = me._props
+        r2 = TenSym({}, funcs=ucfuncs).run_fn(v, self=me2)
+        ctx.decide(r2 is None, "C17-R5", v, TRAJ, q, "no cell: no volume", "", "a trajectory without a cell reports volumes %r" % (r2,))
+    except Raised as e:
+        ctx.violated("C17-R5", v, TRAJ, q, "volume = det(unitcell_vectors)", "unitcell_volumes raises %s" % (e.exc or e))
+    except PUnsupported as e:
+        ctx.undecided("C17-R5", v, TRAJ, q, "volume = det(unitcell_vectors)", "not evaluable: %s" % e)
